@@ -13,7 +13,9 @@ RULE = (
     "break_halves); longer chains exhaustively (len 5 quick, len 6 thorough) "
     "under 6 rotating settings; random chains of length 5-8 with min <= 4; "
     "'ALL'. Each through Tract(text, parse_qq=True, config=...) or "
-    "Tract.parse(keywords) or a direct parse_aliquot call, and judged by the "
+    "Tract.parse(keywords), Tract.parse(keywords) over a contrary configured "
+    "qq_depth, PLSSDesc(config) / PLSSDesc.parse(keywords) (settings handed "
+    "down to the tract) or a direct parse_aliquot call, and judged by the "
     "geometric model (pv/oracles/aliquot.py): pieces inside the region, "
     "pairwise disjoint, areas add up, min/max depth, no half under "
     "break_halves. The same judgement runs as an icontract post-condition on "
@@ -28,7 +30,7 @@ ASSUMPTIONS = [
 ]
 MIN_NONTRIVIAL = {'quick': 100000, 'thorough': 1000000}
 REQUIRED_MONITORS = ['contract:parse_aliquot', 'boundary:Tract.qqs',
-                     'direct:parse_aliquot']
+                     'boundary:PLSSDesc.qqs', 'direct:parse_aliquot']
 EXHAUSTIVE_SUBSPACES = {
     'quick': ["all 4680 chains of length <= 4 x 24 depth settings",
               "all 32768 chains of length 5 x 6 rotating depth settings"],
@@ -112,6 +114,40 @@ def check_case(chain, st, channel, ctx, rep, pytrs):
             t.parse(**kw)
             qqs, whole = t.qqs, t.aliquots_whole
             ctx.hit('boundary:Tract.qqs')
+        elif channel == 'plssdesc':
+            # depth settings handed down from a description's config text
+            d = pytrs.PLSSDesc(f"T154N-R97W Sec 14: {text}",
+                               config=(_config_text(st) + ',parse_qq').lstrip(','))
+            qqs = d.tracts[0].qqs if len(d.tracts) == 1 else None
+            ctx.hit('boundary:PLSSDesc.qqs')
+            if qqs is None:
+                ctx.violation('plssdesc-tracts', case,
+                              f"{len(d.tracts)} tracts for a one-section text")
+                return
+        elif channel == 'plssdesc-keyword':
+            d = pytrs.PLSSDesc(f"T154N-R97W Sec 14: {text}", wait_to_parse=True)
+            kw = {'break_halves': st['bh'], 'parse_qq': True}
+            for a, b in (('min', 'qq_depth_min'), ('max', 'qq_depth_max'),
+                         ('depth', 'qq_depth')):
+                if st[a] is not None:
+                    kw[b] = st[a]
+            tl = d.parse(**kw)
+            qqs = tl[0].qqs
+            ctx.hit('boundary:PLSSDesc.qqs')
+        elif channel == 'keyword-over-config':
+            # a configured exact depth is ignored once min/max (or another
+            # depth) is passed as keyword -- documented in Tract.parse
+            t = pytrs.Tract(text, config=f"qq_depth.{3 - (len(chain) % 3)}")
+            kw = {'break_halves': st['bh']}
+            if st['depth'] is not None:
+                kw['qq_depth'] = st['depth']
+            else:
+                kw['qq_depth_min'] = st['min']
+                if st['max'] is not None:
+                    kw['qq_depth_max'] = st['max']
+            t.parse(**kw)
+            qqs = t.qqs
+            ctx.hit('boundary:Tract.qqs')
         else:
             from pytrs.parser.tract import aliquot_parse
             qqs = aliquot_parse.parse_aliquot(
@@ -136,7 +172,11 @@ def _setup(ctx):
     return pytrs, rep
 
 
-CHANNELS = ('config', 'keyword', 'direct')
+# Rotation: the two description-level channels are ~10x dearer per case.
+CHANNELS = ('config', 'keyword', 'direct', 'keyword-over-config',
+            'config', 'keyword', 'direct', 'plssdesc',
+            'config', 'keyword', 'direct', 'keyword-over-config',
+            'config', 'keyword', 'direct', 'plssdesc-keyword')
 
 
 def run_shard(shard, ctx):
@@ -150,7 +190,7 @@ def run_shard(shard, ctx):
                 if k % shard['parts'] != shard['part']:
                     continue
                 for si, st in enumerate(SETTINGS):
-                    check_case(chain, st, CHANNELS[(k + si) % 3], ctx, rep,
+                    check_case(chain, st, CHANNELS[(k + si) % len(CHANNELS)], ctx, rep,
                                pytrs)
         if shard['part'] == 0:
             for si, st in enumerate(SETTINGS):
@@ -164,7 +204,7 @@ def run_shard(shard, ctx):
             if k % shard['parts'] != shard['part']:
                 continue
             st = ROTATING[k % len(ROTATING)]
-            check_case(chain, st, CHANNELS[k % 3], ctx, rep, pytrs)
+            check_case(chain, st, CHANNELS[k % len(CHANNELS)], ctx, rep, pytrs)
         return
     rng = ctx.rng('random', shard['i'])
     for _ in range(shard['n']):
